@@ -448,6 +448,7 @@ func writeEvidence(prop, tier string, seed uint64, results []*PartResult, wall f
 		}
 	}
 	overflow := false
+	neverHit := []string{}
 	for _, pr := range results {
 		ck := pr.Check
 		if ck.Level == "fault_enumeration" {
@@ -477,6 +478,11 @@ func writeEvidence(prop, tier string, seed uint64, results []*PartResult, wall f
 		for _, s := range pr.Samples {
 			if len(samples) < 3 {
 				samples = append(samples, s)
+			}
+		}
+		for _, ep := range ck.ExpectedProbes {
+			if pr.Stats["probe."+ep] == 0 {
+				neverHit = append(neverHit, ck.Name+":"+ep)
 			}
 		}
 		var classes []string
@@ -512,6 +518,7 @@ func writeEvidence(prop, tier string, seed uint64, results []*PartResult, wall f
 		"samples":             samples,
 		"faults_fired":        faults,
 		"reach_probes":        probes,
+		"probes_never_hit":    neverHit,
 		"counters":            other,
 		"simulated_time_s":    float64(simNs) / 1e9,
 		"simulator_steps":     steps,
